@@ -25,7 +25,7 @@ For every job (= one descriptor chosen by TLC, spec/Gate.tla):
 Nothing is decided here: the records go to TLC (spec/Gate_Trace.tla).
 
 usage: python -m harness.gate_h <jobs.json> <out.ndjson>
- jobs.json = {"jobs": [ {"id": n, "d": {kinds, shape, vals, viol, pos:{k,e}}, "cli": bool} ], }
+ jobs.json = {"jobs": [ {"id": n, "d": {kinds, shape, vals, evs, viol, pos:{k,e}}, "cli": bool} ], }
  environment: VERIF_GATE_MUTANT=<name> applies an in-memory mutant of the real
  gate (self-test of the binding; never written to /repo)
 '''
@@ -197,7 +197,7 @@ def engine_desc(d, base):
     algs = []
     need_up = shape != 'root' or (not algk and 'events' in kinds)
     need_down = shape in ('fb_sv', 'fb_val')
-    evs = [{'boot': True}, {'dow': 1, 'time': [1, 2, 3]}]
+    evs = EV_LAYOUTS[d.get('evs', 'boot_dow')]
     for i, k in enumerate(algk):
         g = dep_gran(shape, k, 'a1')
         refs = []
@@ -310,7 +310,25 @@ def ref_expr_edit(body, viol, base, kind):
     return body, impl
 
 
+# the moments of the two conforming events per event layout (spec: EvLayouts); dow=0 is
+# calendar.MONDAY: a defined value that happens to be falsy
+EV_LAYOUTS = {
+    'boot_dow': [{'boot': True}, {'dow': 1, 'time': [1, 2, 3]}],
+    'dow0_dom': [{'dow': 0, 'time': [1, 2, 3]}, {'dom': 15, 'time': [1, 2, 3]}],
+    'day_dow0': [{'day': [2031, 5, 6], 'time': [1, 2, 3]}, {'dow': 0, 'time': [1, 2, 3]}],
+}
+_T = 'datetime.time(1, 2, 3)'
+_D = 'datetime.date(2031, 5, 6)'
+
 MOMENTS = {
+    'mom_two_bf_day': f'dawgie.MOMENT(False, {_D}, None, None, {_T})',
+    'mom_two_bf_dom': f'dawgie.MOMENT(False, None, 15, None, {_T})',
+    'mom_two_bf_dow': f'dawgie.MOMENT(False, None, None, 1, {_T})',
+    'mom_two_dow0_dom': f'dawgie.MOMENT(None, None, 15, 0, {_T})',
+    'mom_two_dow0_day': f'dawgie.MOMENT(None, {_D}, None, 0, {_T})',
+    'mom_notime_dow0': 'dawgie.MOMENT(None, None, None, 0, None)',
+    'mom_notime_dom': 'dawgie.MOMENT(None, None, 15, None, None)',
+    'mom_notime_day': f'dawgie.MOMENT(None, {_D}, None, None, None)',
     'mom_two': 'dawgie.MOMENT(True, None, None, 1, datetime.time(1, 2, 3))',
     'mom_none': 'dawgie.MOMENT(None, None, None, None, datetime.time(1, 2, 3))',
     'mom_day_type': "dawgie.MOMENT(None, '2024-01-01', None, None, datetime.time(1, 2, 3))",
@@ -350,8 +368,8 @@ def materialise(d, base):
             srcs[ini],
             f'    import {base}.t0.bot\n    return [\n    ]',
             f'    import {base}.up.bot\n    return [\n'
-            f'        dawgie.schedule({base}.up.task, {base}.up.bot.Alg_u(), boot=True),\n'
-            f'        dawgie.schedule({base}.up.task, {base}.up.bot.Alg_u(), dow=1, time=datetime.time(1, 2, 3)),\n    ]',
+            + ''.join(f'        dawgie.schedule({base}.up.task, {base}.up.bot.Alg_u(), {engine._moment_expr(e)}),\n' for e in EV_LAYOUTS[d.get('evs', 'boot_dow')])
+            + '    ]',
             'events-only',
         )
     shared = d.get('vals', 'own') == 'shared'
@@ -633,6 +651,7 @@ def sched(base, aedir):
 def run_job(job, root):
     d = job['d']
     d.setdefault('vals', 'own')
+    d.setdefault('evs', 'boot_dow')
     base = f'g{job["id"]}'
     put = base + '.t0'
     aedir = os.path.join(root, base)
